@@ -54,7 +54,8 @@ func (c04) Gen(tier string, seed int64, emit func([]Ev)) {
 	}
 	for i, v := range pcrs {
 		pr := c04Priors(r, 8)
-		emit([]Ev{{"op": "inspcr", "v": W64(v), "prior": B(pr[i%3])}})
+		// every other call hands the writer the whole 8-byte buffer (a slice that goes on behind the field, as pkt[6:] does)
+		emit([]Ev{{"op": "inspcr", "v": W64(v), "prior": B(pr[i%3]), "whole": i/3%2 == 1}})
 	}
 	// PTS values
 	var ptss []uint64
@@ -67,7 +68,7 @@ func (c04) Gen(tier string, seed int64, emit func([]Ev)) {
 	}
 	for i, v := range ptss {
 		pr := c04Priors(r, 7)
-		emit([]Ev{{"op": "inspts", "v": W64(v), "prior": B(pr[i%3])}})
+		emit([]Ev{{"op": "inspts", "v": W64(v), "prior": B(pr[i%3]), "whole": i/3%2 == 1}})
 	}
 	// end to end: the same values set on an adaptation field (PCR, OPCR, both) and carried in a PES header (the
 	// library's own WithPES option; a PES header with PTS and DTS read by the header decoder with DTS asked first
@@ -157,12 +158,20 @@ func (c04) Exec(h []Ev) []Ev {
 			switch GS(e["op"]) {
 			case "inspcr":
 				buf := GB(e["prior"])
-				gots.InsertPCR(buf[:6], UW64(e["v"]))
+				if GBool(e["whole"]) {
+					gots.InsertPCR(buf, UW64(e["v"]))
+				} else {
+					gots.InsertPCR(buf[:6], UW64(e["v"]))
+				}
 				e["after"] = B(buf)
 				e["back"] = W64(gots.ExtractPCR(buf[:6]))
 			case "inspts":
 				buf := GB(e["prior"])
-				gots.InsertPTS(buf[:5], UW64(e["v"]))
+				if GBool(e["whole"]) {
+					gots.InsertPTS(buf, UW64(e["v"]))
+				} else {
+					gots.InsertPTS(buf[:5], UW64(e["v"]))
+				}
 				e["after"] = B(buf)
 				e["back_gots"] = W64(gots.ExtractTime(buf[:5]))
 				e["back_pes"] = W64(pes.ExtractTime(buf[:5]))
@@ -314,7 +323,11 @@ func (c04) Class(e Ev) string {
 			top++
 		}
 		prior := GB(e["prior"])
-		return fmt.Sprintf("%s/topbit%d/prior%02x", op, top, prior[0])[:len(op)+12]
+		c := fmt.Sprintf("%s/topbit%d/prior%02x", op, top, prior[0])[:len(op)+12]
+		if GBool(e["whole"]) {
+			c += "/whole"
+		}
+		return c
 	}
 	if op == "e2e_pcr" {
 		return op + "/" + GS(e["which"])
